@@ -10,6 +10,7 @@
 # information at https://github.com/ddsmt/ddSMT/blob/master/LICENSE.
 
 import io
+import os
 import typing
 
 from .nodes import Node
@@ -226,9 +227,20 @@ def write_smtlib(file: typing.TextIO, exprs: typing.List[Node]):
 
 
 def write_smtlib_to_file(filename: str, exprs: typing.List[Node]):
-    """Use ``write_smtlib`` to write to a filename."""
-    with open(filename, 'w') as file:
-        write_smtlib(file, exprs)
+    """Use ``write_smtlib`` to write to a filename.
+
+    The file is written under a temporary name and then moved into place,
+    so that ``filename`` holds a complete input at any time.
+    """
+    tmpname = f'{filename}.tmp'
+    try:
+        with open(tmpname, 'w') as file:
+            write_smtlib(file, exprs)
+        os.replace(tmpname, filename)
+    except BaseException:
+        if os.path.exists(tmpname):
+            os.unlink(tmpname)
+        raise
 
 
 def write_smtlib_to_str(exprs: typing.List[Node]):
